@@ -6,6 +6,7 @@
 //  bun  <tree>                                nested bundle built bottom-up + all readers (C08)
 //  pm   <hexmsg>                              rtosc_bundle_p on a plain message (C08)
 //  rt   <hexaddr> <hextags> <args>             RtData::reply / broadcast va-forms (8192-byte stack buffer) (C02)
+//  tl   <maxmsg> <nmsgs> <hexaddr> <hextags> <args>   ThreadLink::writeArray / write then read (C02)
 //  sub  <cap> <a> <bcd> <efghi>               subtree_serialize of a 3-parameter object into an exact block (C08/C02)
 //  raw  <hexbytes>                            rtosc_message_length / rtosc_valid_message_p on
 //                                             an exact heap copy, accessors if valid (C07)
@@ -17,6 +18,7 @@
 #include <rtosc/ports.h>
 #include <rtosc/port-sugar.h>
 #include <rtosc/subtree-serialize.h>
+#include <rtosc/thread-link.h>
 #include <cstdarg>
 #include <csignal>
 #include <unistd.h>
@@ -397,6 +399,44 @@ static void do_sub(const std::vector<std::string> &f)
     puts(os.str().c_str());
 }
 
+// ---- fixed-capacity callers: ThreadLink::writeArray / write (MaxMsg-byte write buffer) ----
+//  tl <maxmsg> <nmsgs> <hexaddr> <hextags> <args>
+static void do_tl(const std::vector<std::string> &f)
+{
+    size_t maxmsg = strtoull(f[1].c_str(), nullptr, 10), nm = strtoull(f[2].c_str(), nullptr, 10);
+    auto ab = unhex(f[3]), tb = unhex(f[4]);
+    std::string tags(tb.begin(), tb.end());
+    auto ps = parse_args(f[5]);
+    ArgPack pk; fill_args(pk, tags, ps);
+    std::vector<uint8_t> az(ab); az.push_back(0);
+    std::vector<uint8_t> tz(tb); tz.push_back(0);
+    ExactBuf A(az), T(tz);
+    const char *a = (const char*)A.p, *t = (const char*)T.p;
+    const rtosc_arg_t *v = pk.a.empty() ? nullptr : pk.a.data();
+    std::ostringstream o;
+    {
+        rtosc::ThreadLink tl(maxmsg, nm);
+        tl.writeArray(a, t, v);
+        if(tl.hasNext()) { const char *m = tl.read(); size_t n = rtosc_message_length(m, maxmsg); o << "wa=" << (n ? hex(m, n) : std::string("NOLEN")); }
+        else o << "wa=EMPTY";
+    }
+    {
+        rtosc::ThreadLink tl(maxmsg, nm);
+        bool done = true;
+        if(tags == "s")       tl.write(a, "s", v[0].s);
+        else if(tags == "ss") tl.write(a, "ss", v[0].s, v[1].s);
+        else if(tags == "b")  tl.write(a, "b", v[0].b.len, v[0].b.data);
+        else if(tags == "is") tl.write(a, "is", v[0].i, v[1].s);
+        else if(tags == "sb") tl.write(a, "sb", v[0].s, v[1].b.len, v[1].b.data);
+        else if(tags == "")   tl.write(a, "");
+        else done = false;
+        if(!done) o << " w=na";
+        else if(tl.hasNext()) { const char *m = tl.read(); size_t n = rtosc_message_length(m, maxmsg); o << " w=" << (n ? hex(m, n) : std::string("NOLEN")); }
+        else o << " w=EMPTY";
+    }
+    puts(o.str().c_str());
+}
+
 static void on_alarm(int) { const char m[] = "HANG\n"; (void)!write(1, m, 5); _exit(3); }
 
 static void do_raw(const std::vector<std::string> &f)
@@ -431,6 +471,7 @@ int main()
         else if(f[0] == "raw" && f.size() >= 2) do_raw(f);
         else if(f[0] == "rt" && f.size() >= 4) do_rt(f);
         else if(f[0] == "sub" && f.size() >= 5) do_sub(f);
+        else if(f[0] == "tl" && f.size() >= 6) do_tl(f);
         else puts("BADCASE");
         fflush(stdout);
     }
